@@ -534,20 +534,26 @@ func valSetup(v *ValJ, name string, in *bytes.Buffer) string {
 	return ""
 }
 
-func pProgram(c *Case) (string, []byte) {
+// pProgram: the operands are the variables a and b, or (elems) the array elements E["a"] and E["b"] -- an operand
+// that is never assigned is then an element that the first reference creates.
+func pProgram(c *Case, elems bool) (string, []byte) {
+	a, b := "a", "b"
+	if elems {
+		a, b = `E["a"]`, `E["b"]`
+	}
 	var sb strings.Builder
 	var in bytes.Buffer
 	sb.WriteString("BEGIN {\n")
 	fmt.Fprintf(&sb, "  CONVFMT = %s\n", hx.AwkString(c.Cf.Bytes()))
-	sb.WriteString(valSetup(&c.A, "a", &in))
-	sb.WriteString(valSetup(&c.B, "b", &in))
-	sb.WriteString("  printf \"%d%d%d%d%d%d \", (a<b), (a<=b), (a==b), (a!=b), (a>b), (a>=b)\n")
+	sb.WriteString(valSetup(&c.A, a, &in))
+	sb.WriteString(valSetup(&c.B, b, &in))
+	fmt.Fprintf(&sb, "  printf \"%%d%%d%%d%%d%%d%%d \", (%[1]s<%[2]s), (%[1]s<=%[2]s), (%[1]s==%[2]s), (%[1]s!=%[2]s), (%[1]s>%[2]s), (%[1]s>=%[2]s)\n", a, b)
 	for _, op := range []string{"<", "<=", "==", "!=", ">", ">="} {
-		fmt.Fprintf(&sb, "  if (a %s b) r = r \"1\"; else r = r \"0\"\n", op)
+		fmt.Fprintf(&sb, "  if (%s %s %s) r = r \"1\"; else r = r \"0\"\n", a, op, b)
 	}
 	sb.WriteString("  printf \"%s \", r\n")
-	sb.WriteString("  w = \"\"; i = 0; while (a < b) { w = \"1\"; if (i++ >= 0) break }\n")
-	sb.WriteString("  printf \"%s%s\\n\", (w == \"\" ? 0 : 1), (!(a == b) ? 1 : 0)\n")
+	fmt.Fprintf(&sb, "  w = \"\"; i = 0; while (%s < %s) { w = \"1\"; if (i++ >= 0) break }\n", a, b)
+	fmt.Fprintf(&sb, "  printf \"%%s%%s\\n\", (w == \"\" ? 0 : 1), (!(%s == %s) ? 1 : 0)\n", a, b)
 	sb.WriteString("}\n")
 	return sb.String(), in.Bytes()
 }
@@ -583,7 +589,15 @@ func replayP(c *Case) hx.Outcome {
 	if json.Unmarshal(c.Main, &main) != nil || json.Unmarshal(c.Alts, &alts) != nil || len(main.Ops) != 6 {
 		return hx.Outcome{Skipped: true, Note: "bad pair case"}
 	}
-	prog, in := pProgram(c)
+	if o := replayPWith(c, &main, alts, false); o.Fail != nil || o.Skipped {
+		return o
+	}
+	return replayPWith(c, &main, alts, true)
+}
+
+func replayPWith(c *Case, mainp *PPred, alts []PPred, elems bool) hx.Outcome {
+	main := *mainp
+	prog, in := pProgram(c, elems)
 	res := hx.RunAwk(prog, in, nil, nil)
 	if res.Panic != nil {
 		return hx.Fail("C05/panic", fmt.Sprintf("panic: %v", res.Panic), nil, res.PanicStk, prog)
@@ -609,6 +623,9 @@ func replayP(c *Case) hx.Outcome {
 		mode = "numeric-mode"
 	}
 	sig := fmt.Sprintf("C05/pair/%s-%s/%s", what, mode, c.Cls)
+	if elems {
+		sig = fmt.Sprintf("C05/pair-of-array-elements/%s-%s/%s", what, mode, c.Cls)
+	}
 	return hx.Fail(sig, fmt.Sprintf("%s against %s: operators < <= == != > >= differ from the specification (%s comparison expected)",
 		valDesc(&c.A), valDesc(&c.B), mode), main.Ops, got, prog)
 }
@@ -730,8 +747,42 @@ func Replay(raw json.RawMessage) hx.Outcome {
 		return replayV(&c)
 	case "t":
 		return replayT(&c)
+	case "c":
+		return replayC(&c)
 	}
 	return hx.Outcome{Skipped: true, Note: "unknown family"}
+}
+
+// replayC: a long decimal (its float64 is not predicted): comparison and arithmetic must read the same
+// number out of it, in every numeric-string provenance.
+func replayC(c *Case) hx.Outcome {
+	s := c.S.Bytes()
+	prog := `function probe(tag, v,   x) { x = v + 0; printf "%s %d %d %d %d\n", tag, (v == x), (v < x), (v > x), (v == x "") }
+{ probe("field", $1); split($0, arr, ";"); probe("split", arr[1]); probe("var", vv); probe("environ", ENVIRON["V"])
+  if ((getline gl) > 0) probe("getline", gl) }
+`
+	var in bytes.Buffer
+	in.Write(s)
+	in.WriteByte('\n')
+	in.Write(s)
+	in.WriteByte('\n')
+	cfg := &interp.Config{Environ: []string{"V", string(s)}, Vars: []string{"vv", string(s)}}
+	res := hx.RunAwk(prog, in.Bytes(), cfg, nil)
+	if res.Panic != nil || res.ParseErr != nil || res.Err != nil {
+		return hx.Fail("C05/probe-error/"+c.Cls, fmt.Sprintf("probe program failed: %v %v %v", res.Panic, res.ParseErr, res.Err), nil, string(res.Stdout), prog)
+	}
+	for _, line := range strings.Split(strings.TrimSpace(string(res.Stdout)), "\n") {
+		f := strings.Fields(line)
+		if len(f) != 5 {
+			return hx.Fail("C05/probe-output/"+c.Cls, "garbled probe line", nil, string(res.Stdout), prog)
+		}
+		if f[1] != "1" || f[2] != "0" || f[3] != "0" {
+			return hx.Fail("C05/strnum-"+f[0]+"/compare-vs-arithmetic/"+c.Cls,
+				fmt.Sprintf("numeric string %q (%s): v == v+0, v < v+0, v > v+0 are %s %s %s; comparison and arithmetic must read the same number (1 0 0)", s, f[0], f[1], f[2], f[3]),
+				"1 0 0", strings.Join(f[1:4], " "), prog)
+		}
+	}
+	return hx.OK(true)
 }
 
 // replayT re-runs a recorded observation that Trace_Values rejected: the probe
